@@ -56,6 +56,17 @@ def cases(rng, tier):
             b = gen.rand_ta(rng, m, rng.randint(m, 3 * m), sigma=sg, pfinal=0.2, leafbias=0.3)
         if rng.random() < 0.3: a, _ = gen.permute_states(rng, a, sparse=True)
         cs.append(("laws %s %s %d %d" % (a.fmt(), b.fmt(), rng.randrange(1 << 30), 400 if tier == "quick" else 1500), "generated_medium"))
+    # small cyclic pairs on which a downward check must not keep answers obtained under a hypothesis (gen.coinductive_trap_pair /
+    # defective_copies_pair): the 8 selections must agree with each other and with their verdicts on the renamed / re-ordered twin
+    for i in range(250 if tier == "quick" else 3000):
+        a, b = gen.coinductive_trap_pair(rng) if i % 4 else gen.defective_copies_pair(rng)
+        cs.append(("laws %s %s %d %d" % (a.fmt(), b.fmt(), rng.randrange(1 << 30), 400 if tier == "quick" else 1500), "generated_trap"))
+    # invariance stream: small cyclic pairs (split pairs: deciding them needs unions of copies under cyclic sub-goals) with several twins each;
+    # only the 8 selections are asked, all answers of a case must coincide
+    for i in range(1500 if tier == "quick" else 20000):
+        a, b = gen.split_pair(rng)
+        if rng.random() < 0.15: a, b = b, a
+        cs.append(("inv %s %s %d %d %d" % (a.fmt(), b.fmt(), rng.randrange(1 << 30), 1000, 3), "invariance_split"))
     if tier != "quick":
         listed = [l.split() for l in open(os.path.join(REPO, "tests", "aut_timbuk_smaller_incl.txt")) if len(l.split()) == 3]
         rng.shuffle(listed)
@@ -77,7 +88,7 @@ def observe(dist, c, impl, verd):
             n = int(w[2:].split(":")[0]); k = "states<=20" if n <= 20 else "states<=60" if n <= 60 else "states>60"
             dist[k] = dist.get(k, 0) + 1
 def explain(c, impl, verd):
-    return ("case = laws <file A> <file B> <seed> <per-call limit ms>; impl: AB/AA/TW = verdicts of the 8 selections on (A,B), (A,A), twin pair (1 0 T=time limit E=exception); "
+    return ("case = laws <file A> <file B> <seed> <per-call limit ms> (inv <A> <B> <seed> <limit> <k>: only the 8 selections, on the pair and on k twins: INV=<8>:<8>:..., every answer must be the same); impl: AB/AA/TW = verdicts of the 8 selections on (A,B), (A,A), twin pair (1 0 T=time limit E=exception); "
             "E = emptiness of A and its twin; LAWS = 13 laws x 2 selections (A<=AuB, B<=AuB, AnB<=A, AnB<=B, AnB<=AuB, A<=Reduce, Reduce<=A, A<=trim, trim<=A, A<=reindexed, reindexed<=A, "
             "A<=reloaded, reloaded<=A); SZ = states after Reduce of A / twin, after trimming of A / twin; SIMD/SIMU = simulation of A equals renamed simulation of the twin")
 LEVEL_TEXT = ("Coq corollaries (all automata, no bounds) of the theorems of C01/C02/C03/C05/C14: a verdict or emptiness answer is invariant under renamings injective on the operands' "
